@@ -141,7 +141,7 @@ func buildLossState(rec *Recording, k int, v plVariant) *snap {
 }
 
 // lossPoints chooses the prefixes at which loss variants are applied: just after every acknowledgement
-// marker, just before every fsync of a WAL file (maximal volatile WAL data), after every global sync and
+// marker, just before every fsync of a WAL file (maximal volatile WAL data), before and after every global sync, after every
 // WAL truncation, and the end of the log; thorough: every prefix ending in a mutating effect.
 func lossPoints(rec *Recording, every bool) []int {
 	n := len(rec.Log.Effects)
@@ -156,6 +156,9 @@ func lossPoints(rec *Recording, every bool) []int {
 			set[i] = true
 			set[i+1] = true
 		case e.Kind == sp.SyncAll:
+			// just before the global sync the volatile set is maximal: everything the checkpoint is about
+			// to declare durable is still losable
+			set[i] = true
 			set[i+1] = true
 		case e.Kind == sp.Truncate && isWAL(e.Path):
 			set[i+1] = true
